@@ -26,7 +26,7 @@ RULE = (
 )
 ASSUMPTIONS = [
     "reference checker vlib/refcheck.py encodes the documented semantics (float accepts int/bool; Literal by ==)",
-    "NaN, Fraction/Decimal and Type[...] of non-class arguments other than Any are outside the judged language",
+    "Fraction/Decimal and Type[...] of non-class arguments other than Any are outside the judged language (NaN is judged against bounded types only: it is within no bound)",
 ]
 EXHAUSTIVE = {"quick": False, "thorough": False}
 
@@ -255,6 +255,9 @@ def conforming(term, env, rng):
     raise ValueError(term)
 
 
+NAN = float("nan")
+
+
 def edge_values(term):
     """Boundary probes for leaf terms: (tag, value)."""
     k = term[0]
@@ -268,6 +271,7 @@ def edge_values(term):
                 out.append((f"{name}_{dn}_f", float(b + d) + (0.0 if d == 0 else -0.5 * d)))
         out.append(("bool_true", True))
         out.append(("str", "1"))
+        out.append(("nan", NAN))  # a float that is within no bound (every comparison with it is false)
     if k == "literal":
         for choice in term[1]:
             out.append(("choice", choice))
